@@ -775,7 +775,9 @@ impl Scenario for Flow {
                         }
                     }
                     if let Some(v) = v6 {
-                        let undecodable = call == Call::EncapExt;
+                        // C13 speaks about the packet (decodable, reported length = on-wire length), not about the bytes
+                        // of the buffer behind it (those are C06's)
+                        let undecodable = call == Call::EncapExt && v.clause != "C06.wrote_beyond_reported_length";
                         let detail = v.detail.clone();
                         let site = v.site.clone();
                         let s = ex.report(v);
